@@ -817,6 +817,42 @@ def gen_views(repo):
                  '%s: %s 2-D view, eval_s(i,j): (row, column) of the parent' % (V2, tag))
         G.define('gen_view2d_eval2_%s' % tag, '(f0 s0 f1 s1 N i j : Z)', '(Z * Z)', method(V2, cre2, nth, r'FASTOR_INLINE\s+SIMDVector<U,simd_abi_type>\s+eval\s*\(\s*FASTOR_INDEX\s+i\s*,\s*FASTOR_INDEX\s+j\s*\)\s*const\s*\{', subs2, e2, {}, '@vec'),
                  '%s: %s 2-D view, eval(i,j): (first offset, stride) of the loaded / gathered vector' % (V2, tag))
+    # ---- every store / scalar access site of the non-const 2-D view class (all assignment operators and right-hand-side kinds)
+    def enclosing_step1(cls, pos):
+        """is position pos inside the true-branch block of `if (_seq1._step == 1)` ?"""
+        depth = 0; k = pos
+        while k > 0:
+            k -= 1
+            if cls[k] == '}': depth += 1
+            elif cls[k] == '{':
+                if depth == 0:
+                    if re.search(r'if\s*\(\s*_seq1\._step\s*==\s*1\s*\)\s*$', cls[:k]): return True
+                else: depth -= 1
+        return False
+    def write_sites():
+        txt = preprocess(G.src(V2), {'NDEBUG', 'FASTOR_USE_VECTORISED_EXPR_ASSIGN'})
+        cls, _ = find_scope(txt, r'struct\s+TensorViewExpr\s*<\s*Tensor<T,M,N>\s*,\s*2\s*>[^{]*\{', 0)
+        env = ids(['f0', 's0', 'f1', 's1', 'N', 'i', 'j'])
+        def tr(e):
+            for pat, rep in subs2: e = re.sub(pat, rep, e)
+            return '(' + translate(e, 'Z', env, ())[0] + ')%Z'
+        sites = []
+        for m in re.finditer(r'&_data\s*\[', cls):
+            j = match_close(cls, m.end() - 1, '[', ']')
+            sites.append((m.start(), '(0%%nat, %s, %s, 0%%Z)' % ('true' if enclosing_step1(cls, m.start()) else 'false', tr(cls[m.end():j]))))
+        for m in re.finditer(r'data_setter\s*\(', cls):
+            j = match_close(cls, m.end() - 1, '(', ')'); a = split_top(cls[m.end():j])
+            if len(a) != 4 or a[0].strip() != '_data': raise XErr('data_setter arguments: ' + cls[m.end():j][:60])
+            sites.append((m.start(), '(1%%nat, %s, %s, %s)' % ('true' if enclosing_step1(cls, m.start()) else 'false', tr(a[2]), tr(a[3]))))
+        for m in re.finditer(r'(?<![\w.])_expr\s*\(', cls):
+            j = match_close(cls, m.end() - 1, '(', ')'); a = split_top(cls[m.end():j])
+            if len(a) != 2: continue                       # the member initialiser _expr(_ex)
+            sites.append((m.start(), '(2%%nat, %s, %s, %s)' % ('true' if enclosing_step1(cls, m.start()) else 'false', tr(a[0]), tr(a[1]))))
+        if len(sites) < 40: raise XErr('only %d access sites found in the non-const 2-D view class' % len(sites))
+        return '[' + (';' + NL).join(t for _, t in sorted(sites)) + ']'
+    G.define('gen_view2d_write_sites', '(f0 s0 f1 s1 N i j : Z)', 'list (nat * bool * Z * Z)', write_sites,
+             V2 + ': non-const 2-D view class, every access site of the parent in all assignment operators (with FASTOR_USE_VECTORISED_EXPR_ASSIGN): '
+                  '(0 contiguous vector address &_data[e] / 1 data_setter(_data,_vec,e,stride) / 2 _expr(row,col); inside the `_seq1._step == 1` branch?; e or row; stride or col)')
     # ---- tensor/BlockIndexing.h: flat indices precomputed by the index-tensor overloads of operator()
     BI = 'tensor/BlockIndexing.h'
     batoms = [(r'_it0\s*\(\s*i\s*\)', 'a', 'n'), (r'_it1\s*\(\s*j\s*\)', 'b', 'n'), (r'_it0\s*\(\s*j\s*\)', 'b', 'n'),
@@ -850,7 +886,7 @@ def gen_views(repo):
     hdr = ('(** GENERATED by lib/cxx2v.py from the C++ source of /repo on every run -- do not edit.\n'
            '    Constructor normalisation and index computations of the dynamic 1-D / 2-D view classes;\n'
            '    flat indices precomputed by the index-tensor overloads of operator() (BlockIndexing.h). *)\n'
-           'From Coq Require Import ZArith Bool.\n\n')
+           'From Coq Require Import ZArith Bool List.\nImport ListNotations.\n\n')
     return G, hdr + '\n'.join(G.defs)
 
 # ----------------------------------------------------------------------------------------------------
